@@ -29,6 +29,25 @@ void h_coordinator(void) {
 ''' % (nF, nt)
     return pre + rc.text(None) + wd.text(None) + h, [wd, rc]
 
+def worker_tu(nF, rounds):
+    ev = units.free_function(CS, "evaluate_descent")
+    pre = '#define VP_MAXROUNDS %d\n#include "%s/stubs/c12_common.h"\n#include "%s/stubs/c12_worker.h"\n' % (rounds, vlib.VERIF, vlib.VERIF)
+    h = r'''
+#define NF %d
+void h_worker(void) {
+	cholmod_common c; cholmod_sparse AtA; cholmod_dense Atb; pthread_mutex_t mutex; pthread_cond_t cv;
+	cholmod_dense* x = cholmod_l_allocate_dense(NF + 1, 1, NF + 1, CHOLMOD_REAL, &c);
+	cholmod_dense* x_F = cholmod_l_allocate_dense(NF, 1, NF, CHOLMOD_REAL, &c);
+	long F[NF]; for (int i = 0; i < NF; i++) { F[i] = i; ((double*)x_F->x)[i] = nondet_double(); } for (int i = 0; i < NF + 1; i++) ((double*)x->x)[i] = nondet_double();
+	descent_trial t; t.x = x; t.x_F = x_F; t.AtA_F = &AtA; t.Atb_F = &Atb; t.c = &c; t.F = F; t.nF = NF; t.alpha = NULL; t.x_c = NULL; t.residual = 0;
+	t.H1 = NULL; t.nH1 = 0; t.state = WAIT; t.mutex = &mutex; t.cv = &cv; t.id = 0;
+	vp_t = &t; vp_state_at_unlock = WAIT;
+	evaluate_descent(&t);
+	__CPROVER_assert(0, "evaluate_descent never returns normally (it leaves through pthread_exit)");
+}
+''' % nF
+    return pre + ev.text(None) + h, ev
+
 def loop_bound(nF, nt):
     import math
     nblocks = int(math.ceil((nF + 2) / float(nt)))
@@ -47,17 +66,29 @@ def loop_bound(nF, nt):
     return f
 
 def jobs(thorough):
-    insts = [(1, 1), (1, 2), (2, 1), (2, 2), (2, 3)] if not thorough else [(nF, nt) for nF in (1, 2, 3) for nt in (1, 2, 3, 5)]
+    # instances with >= 2 workers cost ~10 min and ~8 GB each (43M clauses): thorough tier only
+    insts = [(1, 1), (2, 1), (3, 1)] if not thorough else [(1, 1), (2, 1), (3, 1), (1, 2), (2, 2), (2, 3), (3, 2)]
     js = []; fns = None
     for nF, nt in insts:
         tu, fns = coordinator_tu(nF, nt)
         js.append(vlib.Job("C12-coordinator-nF%d-threads%d" % (nF, nt), tu, "h_coordinator", loop_contracts=False,
-                           cbmc_flags=["--unwind", str(max(nF + 3, nt + 3)), "--object-bits", "12", "--no-malloc-may-fail"], unwind_by_line=loop_bound(nF, nt), split=8, split_procs=8,
+                           cbmc_flags=["--unwind", str(max(nF + 3, nt + 3)), "--object-bits", "12", "--no-malloc-may-fail"], unwind_by_line=loop_bound(nF, nt),
                            cc_flags=["-I%s/include" % vlib.REPO, "-I%s/src/fitter" % vlib.REPO, "-I/usr/include/suitesparse"],
                            expect_fail=[r"^h_coordinator\.assertion\.\d+$.*", r"canary"], must_have=[r"pthread_cond_wait\.assertion", r"pthread_join\.assertion"],
-                           timeout=1500, backend="cbmc-sat thread-modular (rely/guarantee stubs, unwinding)",
+                           timeout=3600, backend="cbmc-sat thread-modular (rely/guarantee stubs, unwinding)",
                            bounded="instance nF=%d, n_threads=%d; x, x_F, worker results and every rely choice symbolic; loops unwound with unwinding assertions" % (nF, nt),
                            note="walk_descents extracted verbatim; pthread/cholmod/qsort/clock/get_nthreads/calc_residual replaced by contracts (stubs/c12_*.h)"))
+    # worker side
+    for nF, rounds in ([(1, 2), (2, 2)] if not thorough else [(1, 3), (2, 3), (3, 2)]):
+        tu, ev = worker_tu(nF, rounds)
+        js.append(vlib.Job("C12-worker-nF%d-rounds%d" % (nF, rounds), tu, "h_worker", loop_contracts=False,
+                           cbmc_flags=["--unwind", str(max(nF + 2, 2 * rounds + 4)), "--object-bits", "12", "--no-malloc-may-fail"],
+                           cc_flags=["-I%s/include" % vlib.REPO, "-I%s/src/fitter" % vlib.REPO, "-I/usr/include/suitesparse"],
+                           expect_fail=[r"canary: worker reaches pthread_exit"], must_have=[r"pthread_mutex_unlock\.assertion", r"pthread_exit\.assertion"],
+                           split=8, split_procs=8, timeout=1500, backend="cbmc-sat thread-modular (rely/guarantee stubs, unwinding)",
+                           bounded="instance nF=%d, at most %d rounds of work before TERMINATE; coordinator actions, spurious wake-ups, inputs symbolic" % (nF, rounds),
+                           note="evaluate_descent extracted verbatim; worker-side contracts in stubs/c12_worker.h; the rely forces TERMINATE after the round bound"))
+        fns = fns + [ev]
     return fns, js
 
 def replayer(v):
@@ -87,8 +118,9 @@ def replayer(v):
 if __name__ == "__main__":
     fns, js = jobs(vlib.TIER == "thorough")
     # only the LAST harness assertion is a canary; the others are obligations
-    for j in js: j.expect_fail = [r"canary: coordinator run reaches the end"]
-    vlib.run_jobs(js, nproc=3)
+    for j in js:
+        if "coordinator" in j.name: j.expect_fail = [r"canary: coordinator run reaches the end"]
+    vlib.run_jobs(js, nproc=3 if vlib.TIER != 'thorough' else 2)
     rep = vlib.Report("C12", level="model_checking"); rep.add_jobs(js)
     for f in fns: rep.functions.append(f.info())
     rep.assume("BOUNDED: one instance per concrete (nF, n_threads); never counted as proved",
